@@ -65,9 +65,22 @@ def shard(shard_no, nshards, seed, tier, extra):
     return res.to_dict()
 
 
+def miri_requests(shard_no, nshards, seed):
+    reqs = [{"op": "ds", "target": "ds", "mode": "exhaustive", "universe": 3, "len": 3, "shard": shard_no, "shards": nshards},
+            {"op": "ds", "target": "ds", "mode": "random", "universe": 16, "len": 60, "count": 14, "seed": seed ^ (shard_no + 11)},
+            {"op": "ds", "target": "vmap", "mode": "random", "universe": 16, "len": 60, "count": 14, "seed": seed ^ (shard_no + 29)}]
+    if shard_no == 0:
+        reqs.append({"op": "ds", "target": "vmap", "mode": "exhaustive", "universe": 3, "len": 4})
+    return reqs
+
+
 def run(tier, seed, t0):
     results = common.run_sharded(shard, seed, tier)
     res = common.Result.merge(results)
+    if tier == "thorough":
+        from vlib import sanitize
+        m = sanitize.miri_layer(PROP, miri_requests, seed, tier)
+        res = common.Result.merge([res.to_dict(), m.to_dict()])
     # distinct_nontrivial: number of distinct model states reached (measured in the driver), lower-bounded by the
     # per-workload maxima; the set in `nontrivial` only holds the sampled states.
     distinct = sum(v for k, v in res.counters.items() if k.startswith("max_distinct_states:"))
